@@ -44,7 +44,7 @@ func (p Profile) norm() Profile {
 	return p
 }
 
-var plainKeys = []string{"a", "b", "c", "id", "k"}
+var plainKeys = []string{"a", "b", "c", "id", "k", "ab", "bc"}
 
 // caseKeys differ from plain keys only in letter case.
 var caseKeys = []string{"A", "B", "ID", "Id", "K"}
@@ -55,7 +55,7 @@ var plainStrings = []string{"", "a", "b", "1", "true"}
 var PayloadStrings = []string{
 	"\x00", "\x1f", "\n", "\r\n", "\t", "\"", "\\", "\\\"", "<>&", "</script>", "\u2028", "\u2029",
 	"\U0001F600", "\u00e9", "\u65e5\u672c", "\u007f", "\u0080", "\ufeff", " lead", "trail ", "- x", "a: b", "#c", "@", "[", "]", "^", "+", "-", " ",
-	"null", "[]", "{}", "0", "1e21", "~", "yes", "100%", "%d items", "%s", "%!v(MISSING)", "%%", "a%b",
+	"null", "[]", "{}", "0", "1e21", "~", "yes", "\\u0026", "p\\u003eq", "\\u003c", "C:\\U0001F600", "100%", "%d items", "%s", "%!v(MISSING)", "%%", "a%b",
 }
 
 // LongStrings share their first 60 bytes and differ only near the end.
@@ -251,6 +251,22 @@ func Doc(t *rapid.T, p Profile) V {
 // BigValue draws a value whose one-line JSON rendering is long: a string of
 // 5 KB or 70 KB, or an array of 80..3000 small numbers.
 func BigValue(t *rapid.T) V {
+	if Chance(t, "huge", 6) {
+		if Chance(t, "hugeString", 50) {
+			// longer than 1 MiB on one line
+			return strings.Repeat("m", 1200000) + fmt.Sprint(Int(t, "bigTag", 0, 9))
+		}
+		// more than 2^20 LCS cells against a slightly edited copy; a run that can grow
+		n := Int(t, "hugeLen", 1030, 1100)
+		out := make([]V, n)
+		for i := range out {
+			out[i] = float64(i % 50)
+			if i > 200 && i < 260 {
+				out[i] = 0.0
+			}
+		}
+		return out
+	}
 	switch Int(t, "bigKind", 0, 3) {
 	case 0:
 		return strings.Repeat("x", 5000) + fmt.Sprint(Int(t, "bigTag", 0, 9))
@@ -459,9 +475,29 @@ func editArray(t *rapid.T, x []V, p Profile, depth int) V {
 }
 
 func editObject(t *rapid.T, x map[string]V, p Profile, depth int) V {
-	op := Int(t, "objOp", 0, 6)
+	op := Int(t, "objOp", 0, 7)
 	ks := val.Keys(x)
 	switch {
+	case op == 7 && len(ks) >= 2: // re-split two neighbouring key names: {"ab":x,"c":y} -> {"a":x,"bc":y}
+		i := Int(t, "splitAt", 0, len(ks)-2)
+		k1, k2 := ks[i], ks[i+1]
+		var n1, n2 string
+		if len(k1) >= 2 && Chance(t, "moveRight", 50) {
+			n1, n2 = k1[:len(k1)-1], k1[len(k1)-1:]+k2
+		} else if len(k2) >= 2 {
+			n1, n2 = k1+k2[:1], k2[1:]
+		} else {
+			n1, n2 = k1, k2
+		}
+		if _, clash := x[n1]; (!clash || n1 == k1) && n1 != n2 {
+			if _, clash2 := x[n2]; !clash2 || n2 == k2 {
+				v1, v2 := x[k1], x[k2]
+				delete(x, k1)
+				delete(x, k2)
+				x[n1], x[n2] = v1, v2
+			}
+		}
+		return x
 	case op == 6 && len(ks) >= 2: // exchange the values of two keys
 		i := Int(t, "swapK1", 0, len(ks)-1)
 		j := Int(t, "swapK2", 0, len(ks)-2)
